@@ -154,6 +154,12 @@ func (fc *FCtx) pkgVar(o *types.Var) Val {
 		if v, ok := fc.E.pkgVarInit(fc, o); ok {
 			return v
 		}
+		if _, isPtr := o.Type().Underlying().(*types.Pointer); isPtr && strings.HasPrefix(o.Pkg().Path(), modPath) {
+			// e.g. a module's package-level codec: an arbitrary constant (it is only ever a receiver of modelled calls)
+			s := fc.U.SortOf(o.Type())
+			fc.note("package-level variable " + o.Pkg().Name() + "." + o.Name() + " read as an arbitrary constant")
+			return Val{T: fc.U.Const("pkgvar_"+sanitize(o.Pkg().Name()+"_"+o.Name()), s), S: s, GoT: o.Type()}
+		}
 		oos("package-level variable %s.%s", o.Pkg().Name(), o.Name())
 	}
 	oos("unbound variable %s", o.Name())
